@@ -32,6 +32,7 @@
 #include <fcntl.h>
 #include <sys/wait.h>
 #include <sys/mman.h>
+#include <sys/resource.h>
 #if defined(__SANITIZE_ADDRESS__)
 #  include <sanitizer/lsan_interface.h>
 #endif
@@ -184,6 +185,9 @@ static Spawn spawn(const Inp &in, const std::vector<Config> &cfgs, int from, int
     pid_t pid = fork(); if (pid < 0) { perror("fork"); exit(3); }
     if (pid == 0) {
         close(pf[0]); int ef = open(errpath.c_str(), O_WRONLY | O_CREAT | O_TRUNC, 0644); if (ef >= 0) { dup2(ef, 2); dup2(ef, 1); close(ef); }
+#if !defined(__SANITIZE_ADDRESS__)
+        { struct rlimit rl = {(rlim_t)6 << 30, (rlim_t)6 << 30}; setrlimit(RLIMIT_AS, &rl); }      // a run that asks for absurd amounts of memory gets bad_alloc, the shared machine stays alive
+#endif
         Sink s; s.fd = pf[1]; std::vector<Config> part(cfgs.begin(), cfgs.begin() + to); child_body(in, part, from, fill, seed, s);
         int leak = 0;
 #if defined(__SANITIZE_ADDRESS__)
